@@ -456,9 +456,22 @@ def run_other(case):
 
 @st.composite
 def scaled_case(draw, tier):
-    name = draw(st.sampled_from(sorted(FORMATS) + ['mxint', 'bfloat', 'float16']))
-    scale = draw(st.sampled_from([2.0 ** k for k in (-8, -3, -1, 1, 2, 6, 10, 20)] + [2 ** 3, 2 ** 6, 3, 0.1, -2, 1, 1.0, 0.5]))
+    name = draw(st.sampled_from(sorted(FORMATS) + ['mxint', 'bfloat', 'float16', 'e8m0mxfp', 'mxint', 'e8m0mxfp']))
+    scale = draw(st.sampled_from([2.0 ** k for k in (-8, -3, -1, 1, 2, 6, 10, 20)] + [2 ** 3, 2 ** 6, 3, 0.1, -2, 1, 1.0, 0.5, 49, 103, 7, 0.3, 1e-3, 10, 12345]))
     x = draw(f64_st())
+    if draw(st.booleans()):
+        # a value that is exactly scale * (a representable value or an exact rounding tie), so that value / scale is exact
+        if name == 'mxint':
+            v = draw(st.sampled_from([(draw(st.integers(-128, 127)) + 0.5) / 64, draw(st.integers(-128, 127)) / 64]))
+        elif name == 'e8m0mxfp':
+            v = 2.0 ** draw(st.integers(-20, 20))
+        elif name in FORMATS:
+            f = FORMATS[name]
+            j = draw(st.integers(0, len(f.pos_f) - 2))
+            v = draw(st.sampled_from([f.pos_f[j], (f.pos_f[j] + f.pos_f[j + 1]) / 2]))
+        else:
+            v = float(draw(st.integers(-64, 64))) / 8
+        x = float(scale) * v
     return {'fmt': name, 'scale': scale, 'x': x.hex() if not math.isnan(x) else 'nan', 'code': draw(st.integers(0, 65535)), 'mode': draw(st.sampled_from(MODES)),
             'route': draw(st.sampled_from(['dtype_build', 'array', 'array_set']))}
 
@@ -475,6 +488,8 @@ def run_scaled(case):
         nb, dec, enc = 8, mxint_decode, mxint_encode
     elif name == 'bfloat':
         nb, dec, enc = 16, bfloat_decode, bfloat_encode
+    elif name == 'e8m0mxfp':
+        nb, dec, enc = 8, e8m0_decode, e8m0_encode
     else:
         nb = 16
         dec = half_of
@@ -500,8 +515,9 @@ def run_scaled(case):
             b = attempt(lambda: bs.Array(d, [x]).data)
         else:
             def f2():
-                a = bs.Array(d, [0.0])
+                a = bs.Array(d, [x, x])
                 a[0] = x
+                del a[1]
                 return a.data
             b = attempt(f2)
         if ee == 'ValueError':
